@@ -473,6 +473,9 @@ type sRun struct {
 	serveRes string
 	closing bool
 	cancel  context.CancelFunc
+	onEmit  func([]*tunnelpb.ServerToClient)
+	lastObs string
+	initFrames []*tunnelpb.ServerToClient
 }
 
 func b2s(b bool) string { return b01(b) }
@@ -503,7 +506,11 @@ func (r *sRun) observe() string {
 		}
 	}
 	var fs []string
-	for _, m := range r.end.take() {
+	emitted := r.end.take()
+	if r.onEmit != nil {
+		r.onEmit(emitted)
+	}
+	for _, m := range emitted {
 		fs = append(fs, r.w.fmtS2C(m))
 	}
 	// group by stream id, keeping per-stream order
@@ -529,6 +536,7 @@ func (r *sRun) observe() string {
 	if !r.served && r.end.in.length() > 0 {
 		blocked = " B=1" // the receive loop did not come back to Recv: it is blocked
 	}
+	r.lastObs += " ## " + fmt.Sprintf("D=[%s] E=[%s]", strings.Join(dones, " "), strings.Join(events, ";"))
 	return fmt.Sprintf("F=[%s] D=[%s] E=[%s] T=[%s] L=%s%s", strings.Join(fs, " "), strings.Join(dones, " "),
 		strings.Join(events, ";"), tbl, last, blocked)
 }
@@ -552,6 +560,11 @@ type sCfg struct {
 }
 
 func startS(t *testing.T, ops *opsWriter, cfg sCfg) *sRun {
+	ops.add(svcLine(), "ok")
+	return startSNoSvc(t, ops, cfg)
+}
+
+func startSNoSvc(t *testing.T, ops *opsWriter, cfg sCfg) *sRun {
 	ctx, cancel := context.WithCancel(context.Background())
 	w := &sworld{streams: map[int64]*hstream{}, sentIdx: map[int64]int{}, rcvOff: map[int64]int{}, rcvTotal: map[int64]int{}, rcvBuf: map[int64][]byte{}}
 	r := &sRun{t: t, w: w, ops: ops, serveCh: make(chan error, 1), cancel: cancel}
@@ -566,8 +579,9 @@ func startS(t *testing.T, ops *opsWriter, cfg sCfg) *sRun {
 		}()
 		r.serveCh <- grpctunnel.VerifServeTunnel(r.end, metadata.MD{}, cfg.settings, cfg.disable, hm, func() bool { return r.closing })
 	}()
-	ops.add(svcLine(), "ok")
+	r.onEmit = func(fs []*tunnelpb.ServerToClient) { r.initFrames = append(r.initFrames, fs...) }
 	ops.add(fmt.Sprintf("s.init settings=%s disable=%s", b2s(cfg.settings), b2s(cfg.disable)), r.observe())
+	r.onEmit = nil
 	return r
 }
 
@@ -950,34 +964,51 @@ func runSScenario(t *testing.T, ops *opsWriter, rng *rand.Rand, steps int, hosti
 // lastDones is filled by observe through the ops writer; to keep the generator
 // simple it re-parses the most recent implementation line.
 func (r *sRun) refreshPending(streams []*gStream) {
-	line := r.ops.lastImpl
-	i := strings.Index(line, "D=[")
-	if i < 0 {
-		return
-	}
-	j := strings.Index(line[i:], "]")
-	for _, d := range strings.Fields(line[i+3 : i+j]) {
-		dot := strings.IndexByte(d, '.')
-		col := strings.IndexByte(d, ':')
-		if dot < 0 || col < dot {
+	line := r.lastObs
+	r.lastObs = ""
+	for _, seg := range strings.Split(line, " ## ") {
+		i := strings.Index(seg, "D=[")
+		if i < 0 {
 			continue
 		}
-		sid, _ := strconv.ParseInt(d[:dot], 10, 64)
-		op := d[dot+1 : col]
-		for _, g := range streams {
-			if g.sid != sid {
+		j := strings.Index(seg[i:], "]")
+		for _, d := range strings.Fields(seg[i+3 : i+j]) {
+			dot := strings.IndexByte(d, '.')
+			col := strings.IndexByte(d, ':')
+			if dot < 0 || col < dot {
 				continue
 			}
-			switch op {
-			case "recv":
-				g.hRecvPend = false
-			case "send":
-				g.hSendPend = false
-			case "decode":
-				if strings.HasPrefix(d[col+1:], "msg") {
-					g.hEntered = true
-				} else {
-					g.hReturned = true
+			sid, _ := strconv.ParseInt(d[:dot], 10, 64)
+			op := d[dot+1 : col]
+			for _, g := range streams {
+				if g.sid != sid {
+					continue
+				}
+				switch op {
+				case "recv":
+					g.hRecvPend = false
+				case "send":
+					g.hSendPend = false
+				case "decode":
+					if strings.HasPrefix(d[col+1:], "msg") {
+						g.hEntered = true
+					} else {
+						g.hReturned = true
+					}
+				}
+			}
+		}
+		if e := strings.Index(seg, "E=["); e >= 0 {
+			k := strings.LastIndex(seg, "]")
+			for _, ev := range strings.Split(seg[e+3:k], ";") {
+				f := strings.Fields(ev)
+				if len(f) == 3 && f[0] == "entered" {
+					sid, _ := strconv.ParseInt(f[1], 10, 64)
+					for _, g := range streams {
+						if g.sid == sid {
+							g.hEntered = true
+						}
+					}
 				}
 			}
 		}
